@@ -25,6 +25,14 @@ Sub-properties
             exact agreement (rounding) with an independent per-sample jackknife computation in numpy from the raw
             samples of the spec; value equal to the exact product; fluctuations within an explicit second-order
             bound  2 sum_{|S|>=2} (N-1)^(1-|S|) T(|means|, max|delta|)  of the exact first-order product.
+            Chained calls (3 of 5 cases): one or two observable operands are themselves the result of an earlier
+            jack_matmul / einsum call (depth <= 2, any operand position, products of 2-4 factors), i.e. observables whose
+            value differs from the mean of their samples.  Every call of the sequence is judged: value equal to the exact
+            product of the central values of its operands (hence, through the sequence, to the exact product of the
+            primary central values) within 1e-12 x sum of the |terms|; fluctuations within the same second-order bound
+            of the exact first-order product of the operands it was given (delta -> samples minus value).  The
+            sample-by-sample agreement with the independent jackknife is asserted only for calls on primary observables
+            (for value != sample mean the property fixes the value and O(1/N), not the individual jackknife samples).
 """
 import copy
 import itertools
@@ -48,7 +56,8 @@ RULE = ('Hypothesis-generated matrices (1x1..4x4, rectangular for svd/pinv) whos
         '(diagonally dominant, Q diag(lambda) Q^T with eigenvalue / singular-value gaps >= 0.3); products of 2-4 factors. '
         'A case is non-trivial if its observable entries live on at least two different layouts, or it has complex '
         'entries, or it is a product of >= 3 factors; distinct = distinct spec hash. For jack_matmul / einsum all '
-        'entries share one chain (documented precondition of export_jackknife). While the findings F-C10-1 / F-C10-2 are '
+        'entries share one chain (documented precondition of export_jackknife); in 3 of 5 cases one or two operands are '
+        'results of an earlier jackknife product of the same case (labels chained:*), which also makes a case non-trivial. While the findings F-C10-1 / F-C10-2 are '
         'open, matmul inputs of exactly their class (checks.c10.f_c10_1_selected / f_c10_2_operands) are repaired by '
         'replacing entry [0,0] of the offending factor and labelled excluded:<id>; ill-conditioned draws (after noise) '
         'are skipped and counted.')
@@ -64,6 +73,12 @@ ASSUMPTIONS = ['RefObs.combine is the statement of C01 (vlib/refobs.py); identit
                '"singular-value decomposition" / "Moore-Penrose pseudoinverse" (docstrings of svd, pinv)',
                'jackknife reference: jack_i = (N mean - x_i)/(N-1) from the raw samples, result fluctuations -(N-1)(R_i - mean R); '
                'agreement 1e-9 relative + 1e-12 N max|R|',
+               'chained jackknife products: the value of every call is compared with the product of the central values of its '
+               'operands (reference values carried through the sequence in numpy) at 1e-12 x max(|value|, largest jackknife entry, '
+               'sum of the |terms| of the multilinear form accumulated over all earlier calls): the value is a pure product of the '
+               'exported zeroth entries, so only rounding (<= a few hundred eps x sum |terms|) is admitted; an O(1/N^2) shift of the '
+               'value is a violation ("agree with the exact product in value"). Fluctuations and the offset samples - value of an '
+               'operand that is an earlier result are read from that result (after its value and fluctuations were judged)',
                'replica means of results are not compared (the statement speaks of value and fluctuations)']
 
 DATA_KINDS = ['white', 'white', 'ar1', 'alt']
@@ -1061,12 +1076,12 @@ def jack_case(draw, tier, fn):
         if fn == 'einsum':   # keep letters consistent: shrink every letter
             dim = {x: max(1, dim[x] - 1) for x in dim}
             shapes = [tuple(dim[x] for x in s) for s in ins]
-    # chained calls: in half of the cases one or two observable operands are themselves results of an earlier jackknife product
+    # chained calls: in 3 of 5 cases one or two observable operands are themselves results of an earlier jackknife product
     pre = []
     prev_at = []
-    if draw(st.booleans()):
+    if draw(st.sampled_from([False, False, True, True, True])):
         cand = [q for q, k in enumerate(kinds) if k in ('obs', 'cobs')]
-        prev_at = sorted(set(draw(st.sampled_from(cand)) for _ in range(draw(st.sampled_from([1, 1, 2])))))
+        prev_at = draw(st.lists(st.sampled_from(cand), min_size=1, max_size=2, unique=True))
     ops = []
     for q, (s, k) in enumerate(zip(shapes, kinds)):
         if q in prev_at:
